@@ -31,10 +31,10 @@ CASE_TIMEOUT = 60
 # ---------------------------------------------------------------------------- rewrites on the AST
 WS_SP = [" ", "  ", "\n", "\t", " \n ", " // c35\n", "\n// note: x\n  ", "   "]
 WS_SPW = [" ", "  ", "\n", "\t", " \n "]
-WS_OPT = ["", "", " ", "\n", "  ", " // c\n", "\n//\n"]
+WS_OPT = ["", "", " ", "\n", "  ", " // c\n", "\n//\n", "\n  "]
 WS_OPTW = ["", "", " ", "  "]
 WS_NL = ["\n", "\n\n", " \n", "\t\n", "\n// silent\n", " // trailing\n", "\n\n// a\n// b\n", "\n    \n"]
-SEP_RE = re.compile(r"(?:[ \t\n\r]|//[^\n]*\n)*\Z")
+SEP_RE = re.compile(r"(?:[ \t\n\r]|//[^\n]*\n|/\*[^*]*\*/)*\Z")
 
 
 FILLERS = {"sp": WS_SP, "spw": WS_SPW, "opt": WS_OPT, "optw": WS_OPTW, "nl": WS_NL,
@@ -42,7 +42,7 @@ FILLERS = {"sp": WS_SP, "spw": WS_SPW, "opt": WS_OPT, "optw": WS_OPTW, "nl": WS_
 # separator kinds that trigger a known finding (flag -> (kind, predicate on the filler text))
 TRIGGERS = {"interpLeadingWs": ("optwl", lambda t: t != ""),
             "bracketLeadingWs": ("optb", lambda t: t != ""),
-            "commentAtLogicOp": ("spl", lambda t: "//" in t)}
+            "commentAtLogicOp": ("spl", lambda t: "//" in t or "/*" in t)}
 IMPORT_FLAG = "importGlobalShadow"   # a partial that assigns with !global (see notes/C35.md)
 
 
